@@ -89,7 +89,7 @@ theorem hyd_rep {d0 E : Dom} {S T : List Id} (hE : EWorld d0 E S T) : (v : View)
       · subst hs; simp [h2 rfl]
       · have : ¬ s.toList = [] := by simpa using hs
         have hT : i ∉ T := fun h => hs (h1 h)
-        simp [hT, this]
+        simp [hT, hs]
     by_cases hpos : pos = .nextChildAfterText
     · simp only [dom, hpos, if_true, List.cons_append, List.nil_append] at hr
       obtain ⟨si, rest1, htodo, hr1, _⟩ := shape_marker hr
@@ -228,7 +228,7 @@ theorem hyd_rep {d0 E : Dom} {S T : List Id} (hE : EWorld d0 E S T) : (v : View)
         rw [hst]
         refine ⟨?_, [.node i []], by simp, hrest, by simp [IdTree.id, State.roots, keep, hi]⟩
         simp only [Rep]
-        refine ⟨r', hg, by rw [hk', hk0]; simp, by rw [hp', hp0], by rw [ha', hattr], by rw [hydrateAttr_eq_init], ?_⟩
+        refine ⟨r', hg, by rw [hk', hk0], by rw [hp', hp0], by rw [ha', hattr], by rw [hydrateAttr_eq_init], ?_⟩
         rw [isVoid_agree, hv]
         simp only [if_true]
         exact ⟨trivial, by rw [hkids', hkids0]; rfl⟩
@@ -264,7 +264,7 @@ theorem hyd_rep {d0 E : Dom} {S T : List Id} (hE : EWorld d0 E S T) : (v : View)
         subst hc
         refine ⟨?_, [.node i c], by simp, hrest, by simp [IdTree.id, State.roots, keep, hi]⟩
         simp only [Rep]
-        refine ⟨r', hg, by rw [hk', hk0]; simp, by rw [hp', hp0], by rw [ha', hattr], by rw [hydrateAttr_eq_init], ?_⟩
+        refine ⟨r', hg, by rw [hk', hk0], by rw [hp', hp0], by rw [ha', hattr], by rw [hydrateAttr_eq_init], ?_⟩
         rw [isVoid_agree, hvf]
         simp only [Bool.false_eq_true, if_false]
         exact ⟨_, rfl, by rw [hkids', hkids0, h4], h1⟩
